@@ -160,3 +160,10 @@ void h_enf_CountOneBits32(void) { GHOSTS(); uint32_t n; CountOneBits32(n); HARNE
 void h_enf_ReverseBits32(void) { GHOSTS(); uint32_t n; ReverseBits32(n); HARNESS_END(); }
 void h_enf_CopyBits32(void) { GHOSTS(); uint32_t *d; int a, c, k; uint32_t s; CopyBits32(d, a, s, c, k); HARNESS_END(); }
 #endif
+
+#ifdef VERIF_CBMC
+void h_enf_DecoderBuffer_remaining_size(void) { GHOSTS(); struct DecoderBuffer b; DecoderBuffer_remaining_size(&b); HARNESS_END(); }
+void h_enf_DecoderBuffer_data_head(void) { GHOSTS(); struct DecoderBuffer b; b.data_ = 0; DecoderBuffer_data_head(&b); HARNESS_END(); }
+void h_enf_DecoderBuffer_bit_decoder_active(void) { GHOSTS(); struct DecoderBuffer b; DecoderBuffer_bit_decoder_active(&b); HARNESS_END(); }
+void h_enf_DecoderBuffer_Advance(void) { GHOSTS(); struct DecoderBuffer b; int64_t n; DecoderBuffer_Advance(&b, n); HARNESS_END(); }
+#endif
